@@ -1,7 +1,423 @@
-//! C07 — not built yet.
-use crate::report::Tier;
+//! C07 — snapshot export/import, save and in-memory copy preserve the whole graph.
+//! Copy comparator over graphs reached by mutation histories (incl. committed transactions,
+//! deletions, sparse ids, every value type) for all four copy routes, plus hostile bytes
+//! offered to import_snapshot in an isolated child process.
 
-pub fn run(_tier: Tier, _seed: u64) -> ! {
-    println!("INCONCLUSIVE property=C07 reason=monitor not built yet");
-    std::process::exit(2)
+use crate::c05::{self, diff_kind, dump};
+use crate::model::Model;
+use crate::report::{Report, Tier};
+use crate::rng::{Rng, hash_str};
+use crate::util::{catch, scratch_dir};
+use crate::vals;
+use grafeo_common::types::{EdgeId, NodeId, Value};
+use grafeo_engine::GrafeoDB;
+use serde_json::json;
+use std::collections::BTreeSet;
+use std::io::Write;
+
+fn build_source(r: &mut Rng, hist: &mut Vec<String>) -> GrafeoDB {
+    let db = GrafeoDB::new_in_memory();
+    let mut m = Model::default();
+    let mut pushed = Vec::new();
+    let mut kinds = BTreeSet::new();
+    let n = 3 + r.below(40);
+    for _ in 0..n {
+        if r.chance(0.15) {
+            // a committed (or rolled back) transaction through a session
+            let mut s = db.session();
+            let _ = s.begin_tx();
+            let uid = r.below(100_000);
+            let _ = s.execute(&format!("INSERT (:T {{tuid: {uid}, s: 'x'}})"));
+            if r.chance(0.5) {
+                let ids: Vec<u64> = m.nodes.keys().copied().collect();
+                if ids.len() >= 2 {
+                    let _ = s.create_edge(NodeId::new(*r.pick(&ids)), NodeId::new(*r.pick(&ids)), "TX");
+                }
+            }
+            if r.chance(0.8) {
+                let _ = s.commit();
+                hist.push(format!("tx: INSERT (:T {{tuid:{uid}}}) commit"));
+            } else {
+                let _ = s.rollback();
+                hist.push(format!("tx: INSERT (:T {{tuid:{uid}}}) rollback"));
+            }
+            m = dump(&db);
+        } else if r.chance(0.1) {
+            // exotic values
+            let ids: Vec<u64> = m.nodes.keys().copied().collect();
+            if let Some(id) = ids.first() {
+                let v = r.pick(&vals::pool()).clone();
+                db.set_node_property(NodeId::new(*id), "exotic", v.clone());
+                hist.push(format!("set exotic {}", vals::show(&v)));
+                m = dump(&db);
+            }
+        } else {
+            c05::mutate_opt(&db, &mut m, &mut pushed, r, hist, &mut kinds, true);
+        }
+    }
+    // sparse ids: delete a few nodes in the middle (with their edges)
+    let ids: Vec<u64> = m.nodes.keys().copied().collect();
+    for id in ids.iter().filter(|_| r.chance(0.15)) {
+        for (_, e) in m.out_edges(*id).into_iter().chain(m.in_edges(*id)) {
+            db.delete_edge(EdgeId::new(e));
+        }
+        db.delete_node(NodeId::new(*id));
+        m = dump(&db);
+        hist.push(format!("delete node {id} with its edges"));
+    }
+    db
+}
+
+const QUERIES: &[&str] = &[
+    "MATCH (n) RETURN n.k",
+    "MATCH (n:A) RETURN n.k, n.w",
+    "MATCH (a)-[r]->(b) RETURN a.k, r.w, b.k",
+    "MATCH (a)-[r:R]->(b) RETURN a.k, b.k",
+    "MATCH (n:A) RETURN count(n)",
+    "MATCH (n:T) RETURN n.tuid, n.s",
+];
+
+fn answers(db: &GrafeoDB) -> Vec<String> {
+    let s = db.session();
+    QUERIES
+        .iter()
+        .map(|q| match catch(|| s.execute(q)) {
+            Ok(Ok(r)) => {
+                let mut rows: Vec<String> = r.iter().map(|row| row.iter().map(vals::key).collect::<Vec<_>>().join(",")).collect();
+                rows.sort();
+                rows.join(";")
+            }
+            Ok(Err(e)) => format!("ERR:{}", e.to_string().lines().next().unwrap_or("")),
+            Err(p) => format!("PANIC:{}", p.site),
+        })
+        .collect()
+}
+
+fn check_copy(rep: &mut Report, route: &str, src: &Model, src_answers: &[String], copy: &GrafeoDB, hist: &[String]) {
+    rep.count(&format!("copies.{route}"), 1);
+    let c = dump(copy);
+    if let Some((k, d)) = diff_kind(&c, src) {
+        rep.deviation(&format!("copy:{route}.{k}"), json!({"detail": d, "history": hist}));
+        return;
+    }
+    let a = answers(copy);
+    for (i, (x, y)) in a.iter().zip(src_answers).enumerate() {
+        if x != y {
+            rep.deviation(&format!("copy:{route}.query_answer_differs|q{i}"), json!({"query": QUERIES[i], "source": y, "copy": x, "history": hist}));
+        }
+    }
+    // identifiers handed out in the copy do not collide
+    let n = copy.create_node(&["New"]).as_u64();
+    if src.nodes.contains_key(&n) {
+        rep.deviation(&format!("copy:{route}.new_node_id_collides"), json!({"id": n, "history": hist}));
+    }
+    let ids: Vec<u64> = src.nodes.keys().copied().collect();
+    if ids.len() >= 2 {
+        let e = copy.create_edge(NodeId::new(ids[0]), NodeId::new(ids[1]), "New").as_u64();
+        if src.edges.contains_key(&e) {
+            rep.deviation(&format!("copy:{route}.new_edge_id_collides"), json!({"id": e, "history": hist}));
+        }
+    }
+}
+
+fn copies(rep: &mut Report, seed: u64, case: u64) -> Option<Vec<u8>> {
+    let mut r = Rng::new(seed, "C07", case);
+    let mut hist = Vec::new();
+    let db = build_source(&mut r, &mut hist);
+    let src = dump(&db);
+    let src_answers = answers(&db);
+    rep.eval();
+    let mut kinds: BTreeSet<&str> = BTreeSet::new();
+    for n in src.nodes.values() {
+        for v in n.props.values() {
+            kinds.insert(vals::class(v));
+        }
+    }
+    if src.nodes.len() >= 2 && !src.edges.is_empty() && kinds.len() >= 2 {
+        rep.nontrivial(hash_str(&src.canon()));
+    }
+    if case < 2 {
+        rep.sample(json!({"case": case, "nodes": src.nodes.len(), "edges": src.edges.len(), "value_classes": kinds, "history_head": hist.iter().take(10).collect::<Vec<_>>()}));
+    }
+    // export / import
+    let mut snap_out = None;
+    match catch(|| db.export_snapshot()) {
+        Ok(Ok(snap)) => {
+            match catch(|| db.export_snapshot()) {
+                Ok(Ok(s2)) if s2 == snap => {}
+                _ => rep.deviation("copy:export.nondeterministic", json!({"history": hist})),
+            }
+            match catch(|| GrafeoDB::import_snapshot(&snap)) {
+                Ok(Ok(copy)) => check_copy(rep, "snapshot", &src, &src_answers, &copy, &hist),
+                Ok(Err(e)) => rep.deviation("copy:snapshot.import_error", json!({"err": e.to_string(), "history": hist})),
+                Err(p) => rep.deviation(&format!("copy:snapshot.import_panic@{}", p.site), json!({"history": hist})),
+            }
+            snap_out = Some(snap);
+        }
+        Ok(Err(e)) => rep.deviation("copy:export.error", json!({"err": e.to_string(), "history": hist})),
+        Err(p) => rep.deviation(&format!("copy:export.panic@{}", p.site), json!({"history": hist})),
+    }
+    // to_memory
+    match catch(|| db.to_memory()) {
+        Ok(Ok(copy)) => check_copy(rep, "to_memory", &src, &src_answers, &copy, &hist),
+        Ok(Err(e)) => rep.deviation("copy:to_memory.error", json!({"err": e.to_string()})),
+        Err(p) => rep.deviation(&format!("copy:to_memory.panic@{}", p.site), json!({"history": hist})),
+    }
+    // save -> open, save -> open_in_memory
+    let dir = scratch_dir("c07");
+    let p = dir.join("saved");
+    match catch(|| db.save(&p)) {
+        Ok(Ok(())) => {
+            match catch(|| GrafeoDB::open(&p)) {
+                Ok(Ok(copy)) => {
+                    check_copy(rep, "save_open", &src, &src_answers, &copy, &hist);
+                    let _ = copy.close();
+                }
+                Ok(Err(e)) => rep.deviation("copy:save_open.open_error", json!({"err": e.to_string()})),
+                Err(pn) => rep.deviation(&format!("copy:save_open.panic@{}", pn.site), json!({"history": hist})),
+            }
+            let p2 = dir.join("saved2");
+            if catch(|| db.save(&p2)).is_ok() {
+                match catch(|| GrafeoDB::open_in_memory(&p2)) {
+                    Ok(Ok(copy)) => check_copy(rep, "open_in_memory", &src, &src_answers, &copy, &hist),
+                    Ok(Err(e)) => rep.deviation("copy:open_in_memory.error", json!({"err": e.to_string()})),
+                    Err(pn) => rep.deviation(&format!("copy:open_in_memory.panic@{}", pn.site), json!({"history": hist})),
+                }
+            }
+        }
+        Ok(Err(e)) => rep.deviation("copy:save.error", json!({"err": e.to_string()})),
+        Err(pn) => rep.deviation(&format!("copy:save.panic@{}", pn.site), json!({"history": hist})),
+    }
+    let _ = std::fs::remove_dir_all(&dir);
+    // the source is left unchanged
+    if let Some((k, d)) = diff_kind(&dump(&db), &src) {
+        rep.deviation(&format!("copy:source_changed.{k}"), json!({"detail": d, "history": hist}));
+    }
+    snap_out
+}
+
+// ---------------------------------------------------------------- hostile bytes (child process)
+
+#[derive(serde::Serialize, serde::Deserialize)]
+struct SnapMirror {
+    version: u8,
+    nodes: Vec<(NodeId, Vec<String>, Vec<(String, Value)>)>,
+    edges: Vec<(EdgeId, NodeId, NodeId, String, Vec<(String, Value)>)>,
+}
+
+/// Independent reading of the published format: Some(clean?) if the bytes decode as a version-1
+/// snapshot; `clean` = unique ids and every edge endpoint exists.
+fn decode_snapshot(b: &[u8]) -> Option<(SnapMirror, bool)> {
+    // same wire format, but with an allocation limit so hostile lengths cannot hurt the harness
+    let r: Result<(SnapMirror, usize), _> = bincode::serde::decode_from_slice(b, bincode::config::standard().with_limit::<4_000_000>());
+    let (s, _used) = r.ok()?;
+    if s.version != 1 {
+        return None;
+    }
+    let ids: BTreeSet<u64> = s.nodes.iter().map(|n| n.0.as_u64()).collect();
+    let eids: BTreeSet<u64> = s.edges.iter().map(|e| e.0.as_u64()).collect();
+    let clean = ids.len() == s.nodes.len()
+        && eids.len() == s.edges.len()
+        && s.edges.iter().all(|e| ids.contains(&e.1.as_u64()) && ids.contains(&e.2.as_u64()))
+        && s.nodes.iter().all(|n| n.1.iter().collect::<BTreeSet<_>>().len() == n.1.len() && n.2.iter().map(|p| &p.0).collect::<BTreeSet<_>>().len() == n.2.len())
+        && s.edges.iter().all(|e| e.4.iter().map(|p| &p.0).collect::<BTreeSet<_>>().len() == e.4.len());
+    Some((s, clean))
+}
+
+fn mirror_to_model(s: &SnapMirror) -> Model {
+    let mut m = Model::default();
+    for (id, labels, props) in &s.nodes {
+        let l: Vec<&str> = labels.iter().map(|x| x.as_str()).collect();
+        let p: Vec<(&str, Value)> = props.iter().map(|(k, v)| (k.as_str(), v.clone())).collect();
+        m.add_node(id.as_u64(), &l, &p);
+    }
+    for (id, src, dst, ty, props) in &s.edges {
+        let p: Vec<(&str, Value)> = props.iter().map(|(k, v)| (k.as_str(), v.clone())).collect();
+        m.add_edge(id.as_u64(), src.as_u64(), dst.as_u64(), ty, &p);
+    }
+    m
+}
+
+/// Child mode: read length-prefixed inputs from the batch file, import each, print one line
+/// per input: "<i> ok <canon-hash>" / "<i> err" / "<i> panic <site>".
+pub fn child_main(batch: &str) -> ! {
+    unsafe {
+        let lim = libc::rlimit { rlim_cur: 4 << 30, rlim_max: 4 << 30 };
+        libc::setrlimit(libc::RLIMIT_AS, &lim);
+    }
+    let data = std::fs::read(batch).expect("batch");
+    let out = std::io::stdout();
+    let mut pos = 0usize;
+    let mut i = 0usize;
+    let start: usize = std::env::var("VH_C07_START").ok().and_then(|s| s.parse().ok()).unwrap_or(0);
+    while pos + 4 <= data.len() {
+        let len = u32::from_le_bytes(data[pos..pos + 4].try_into().unwrap()) as usize;
+        let input = &data[pos + 4..pos + 4 + len];
+        pos += 4 + len;
+        if i >= start {
+            {
+                let mut o = out.lock();
+                let _ = writeln!(o, "{i} begin");
+                let _ = o.flush();
+            }
+            let line = match catch(|| GrafeoDB::import_snapshot(input)) {
+                Ok(Ok(db)) => format!("{i} ok {:016x}", hash_str(&dump(&db).canon())),
+                Ok(Err(_)) => format!("{i} err"),
+                Err(p) => format!("{i} panic {}", p.site),
+            };
+            let mut o = out.lock();
+            let _ = writeln!(o, "{line}");
+            let _ = o.flush();
+        }
+        i += 1;
+    }
+    std::process::exit(0)
+}
+
+fn hostile(rep: &mut Report, seed: u64, snaps: &[Vec<u8>], tier: Tier) {
+    let mut r = Rng::new(seed, "C07.hostile", 0);
+    let mut inputs: Vec<(Vec<u8>, &'static str)> = Vec::new();
+    for s in snaps {
+        if s.len() > 400 {
+            continue;
+        }
+        for cut in 0..s.len() {
+            inputs.push((s[..cut].to_vec(), "truncation"));
+        }
+        let flips = tier.pick(s.len().min(200) * 2, s.len() * 8);
+        for f in 0..flips {
+            let bit = if tier == Tier::Thorough { f } else { r.below(s.len() * 8) };
+            let mut b = s.clone();
+            b[bit / 8] ^= 1 << (bit % 8);
+            inputs.push((b, "bit_flip"));
+        }
+        // inflated length fields: replace a byte by the varint markers for u32/u64 lengths
+        for pos in 0..s.len().min(60) {
+            for marker in [251u8, 252, 253, 254, 255] {
+                let mut b = s.clone();
+                b[pos] = marker;
+                inputs.push((b, "inflated_length"));
+            }
+        }
+    }
+    for _ in 0..tier.pick(300, 5000) {
+        let n = r.below(64);
+        inputs.push(((0..n).map(|_| r.next_u64() as u8).collect(), "random_bytes"));
+    }
+    if inputs.is_empty() {
+        rep.inconclusive("no small snapshot available for the hostile-bytes corpus");
+        return;
+    }
+    let dir = scratch_dir("c07h");
+    let batch = dir.join("batch.bin");
+    let mut f = std::fs::File::create(&batch).unwrap();
+    for (b, _) in &inputs {
+        f.write_all(&(b.len() as u32).to_le_bytes()).unwrap();
+        f.write_all(b).unwrap();
+    }
+    drop(f);
+    // run the child; if it dies, the input after the last "begin" is the culprit
+    let exe = std::env::current_exe().unwrap();
+    let mut results: Vec<Option<String>> = vec![None; inputs.len()];
+    let mut start = 0usize;
+    let mut deaths = 0;
+    while start < inputs.len() && deaths < 50 {
+        let out = std::process::Command::new(&exe)
+            .env("VH_C07_CHILD", batch.to_str().unwrap())
+            .env("VH_C07_START", start.to_string())
+            .arg("C07")
+            .output()
+            .expect("spawn child");
+        let text = String::from_utf8_lossy(&out.stdout);
+        let mut last_begin = None;
+        for line in text.lines() {
+            let mut it = line.splitn(2, ' ');
+            let Some(i) = it.next().and_then(|x| x.parse::<usize>().ok()) else { continue };
+            let rest = it.next().unwrap_or("");
+            if rest == "begin" {
+                last_begin = Some(i);
+            } else if i < results.len() {
+                results[i] = Some(rest.to_string());
+            }
+        }
+        if out.status.success() {
+            break;
+        }
+        deaths += 1;
+        match last_begin {
+            Some(i) if results[i].is_none() => {
+                results[i] = Some(format!("died {:?}", out.status));
+                start = i + 1;
+            }
+            _ => break,
+        }
+    }
+    let _ = std::fs::remove_dir_all(&dir);
+    for ((b, kind), res) in inputs.iter().zip(results) {
+        rep.eval();
+        rep.count(&format!("hostile.{kind}"), 1);
+        let Some(res) = res else {
+            rep.count("hostile.not_judged", 1);
+            continue;
+        };
+        let decoded = decode_snapshot(b);
+        rep.nontrivial(hash_str(&format!("{b:?}")));
+        let head: Vec<u8> = b.iter().take(40).copied().collect();
+        if res.starts_with("panic") {
+            rep.deviation(&format!("import:panic@{}", res.split(' ').nth(1).unwrap_or("")), json!({"corpus": kind, "len": b.len(), "bytes": b}));
+        } else if res.starts_with("died") {
+            rep.deviation("import:process_died", json!({"corpus": kind, "status": res, "len": b.len(), "bytes": b}));
+        } else if res == "err" {
+            if let Some((s, true)) = &decoded {
+                let _ = s;
+                rep.deviation(&format!("import:valid_snapshot_rejected|{kind}"), json!({"len": b.len(), "bytes_head": head}));
+            } else {
+                rep.count("hostile.rejected", 1);
+            }
+        } else if let Some(h) = res.strip_prefix("ok ") {
+            match &decoded {
+                None => rep.deviation(&format!("import:invalid_bytes_accepted|{kind}"), json!({"len": b.len(), "bytes": b})),
+                Some((s, clean)) => {
+                    rep.count("hostile.accepted_valid", 1);
+                    if *clean && format!("{:016x}", hash_str(&mirror_to_model(s).canon())) != h {
+                        rep.deviation(&format!("import:content_differs_from_bytes|{kind}"), json!({"len": b.len(), "bytes": b}));
+                    }
+                }
+            }
+        }
+    }
+}
+
+pub fn run(tier: Tier, seed: u64) -> ! {
+    if let Ok(batch) = std::env::var("VH_C07_CHILD") {
+        child_main(&batch);
+    }
+    let mut rep = Report::new("C07", tier, seed, "exploration");
+    rep.rule = "sources reached by histories (direct-API mutations with every value type and nested values, committed and rolled-back session transactions, deletions leaving sparse ids, the curated exotic value pool) copied through export/import, to_memory, save+open, save+open_in_memory: full dump equality (ids, labels, types, endpoints, bit-exact values), equal answers to a query battery, source unchanged, export deterministic, fresh ids in the copy collision-free. Hostile bytes (every truncation, bit flips, inflated varint lengths, random bytes of small valid snapshots) are imported in a child process under RLIMIT_AS=4GiB; an independent decoder of the published format decides validity. non-trivial = source with >= 2 nodes, >= 1 edge and >= 2 value classes (distinct by canonical dump) resp. each distinct hostile input".into();
+    let mut small_snaps = Vec::new();
+    // two tiny directed sources for the hostile corpus
+    for k in 0..2 {
+        let db = GrafeoDB::new_in_memory();
+        let a = db.create_node_with_props(&["A"], [("k", Value::Int64(7))]);
+        let b = db.create_node(&["B", "C"]);
+        if k == 1 {
+            db.set_node_property(b, "s", vals::s("é"));
+            db.set_node_property(b, "l", vals::list(vec![Value::Float64(1.5), Value::Null]));
+        }
+        db.create_edge_with_props(a, b, "R", [("w", Value::Bool(true))]);
+        small_snaps.push(db.export_snapshot().unwrap());
+    }
+    for case in 0..tier.pick(100, 6000) {
+        if let Some(s) = copies(&mut rep, seed, case) {
+            if s.len() < 200 && small_snaps.len() < 5 {
+                small_snaps.push(s);
+            }
+        }
+    }
+    hostile(&mut rep, seed, &small_snaps, tier);
+    rep.assumptions = vec![
+        "validity of hostile bytes is decided by a mirror of the published snapshot layout decoded with bincode's standard configuration; for inputs that decode but are not 'clean' (duplicate ids, dangling endpoints, duplicate keys) either outcome is accepted as long as the process survives".into(),
+        "the memory bound is an address-space limit of 4 GiB on the child".into(),
+    ];
+    rep.finish()
 }
